@@ -30,7 +30,7 @@ class Def:
         self.naming = "arrow"
 
 
-def gen_def(rng, max_proc=6, max_flows=12, max_stocks=3, hostile_names=False, n_time=None):
+def gen_def(rng, max_proc=6, max_flows=12, max_stocks=3, hostile_names=False, n_time=None, self_loops=0.0):
     d = Def()
     nt = int(rng.integers(3, 6)) if n_time is None else n_time
     others = [l for l in "rmge"]
@@ -60,7 +60,7 @@ def gen_def(rng, max_proc=6, max_flows=12, max_stocks=3, hostile_names=False, n_
     seen = set()
     for _ in range(nf):
         a, b = rng.integers(0, len(d.processes), size=2)
-        if a == b:
+        if a == b and not (rng.random() < self_loops):
             if len(d.processes) == 1:
                 continue
             b = (a + 1) % len(d.processes)
